@@ -92,6 +92,7 @@ type c20In struct {
 	Head   bool     `json:"head,omitempty"`
 	Dirs   []c20Dir `json:"dirs,omitempty"`
 	Tail   string   `json:"tail,omitempty"`
+	Wrap   string   `json:"wrap,omitempty"` // "", "gzip", "header": another directive between log and the handler
 
 	Burst []*c20In `json:"burst,omitempty"`
 }
@@ -311,6 +312,36 @@ func c20BuildRequest(q *c20Req) *http.Request {
 }
 
 func c20RunRepl(in *c20In) Result {
+	var out string
+	if c20Hung {
+		return Result{Term: "(CBurst [])", Obs: "skipped: an earlier Replace call did not terminate", Sig: "repl:skipped-after-hang", Class: "repl:skipped-after-hang"}
+	}
+	var p bool
+	var msg string
+	done := c20Watch(5*time.Second, func() { p, msg = c20RunReplImpl(in, &out) })
+	if !done {
+		c20Hung = true
+		return Result{Term: "(CBurst [])", Obs: "Replace did not return within 5 s", Sig: "repl:hang", Class: "repl:hang",
+			Direct: "replacer.Replace did not terminate (5 s watchdog)"}
+	}
+	return c20ReplResult(in, p, msg, out)
+}
+
+var c20Hung bool
+
+// c20Watch runs f in a goroutine and reports whether it returned in time.
+func c20Watch(d time.Duration, f func()) bool {
+	ch := make(chan struct{})
+	go func() { defer close(ch); f() }()
+	select {
+	case <-ch:
+		return true
+	case <-time.After(d):
+		return false
+	}
+}
+
+func c20RunReplImpl(in *c20In, outp *string) (bool, string) {
 	q := in.Req
 	var out string
 	p, msg := c20Try(func() {
@@ -330,6 +361,12 @@ func c20RunRepl(in *c20In) Result {
 		}
 		out = rep.Replace(in.Fmt)
 	})
+	*outp = out
+	return p, msg
+}
+
+func c20ReplResult(in *c20In, p bool, msg string, out string) Result {
+	q := in.Req
 	// the Cookie header is part of the request headers too
 	q2 := *q
 	if len(q.Cookies) > 0 {
@@ -472,7 +509,12 @@ func c20RunLog(in *c20In) Result {
 	req := &http.Request{Method: "GET", URL: &url.URL{Path: in.Path}, Host: "example.test", Header: http.Header{},
 		Proto: "HTTP/1.1", ProtoMajor: 1, ProtoMinor: 1, RemoteAddr: c20Remote + ":" + c20RemotePort}
 	ret := 0
-	p, msg := c20Try(func() { ret, _ = lg.ServeHTTP(cw, req) })
+	var p bool
+	var msg string
+	if !c20Watch(10*time.Second, func() { p, msg = c20Try(func() { ret, _ = lg.ServeHTTP(cw, req) }) }) {
+		return Result{Term: "(CBurst [])", Obs: "log.Logger.ServeHTTP did not return within 10 s", Sig: "log:hang", Class: "log:hang",
+			Direct: "log.Logger.ServeHTTP did not terminate (10 s watchdog)"}
+	}
 	var lines []c20Line
 	bad := ""
 	for i, b := range bufs {
@@ -599,7 +641,7 @@ func c20Site(in *c20In) (*c20LiveSite, error) {
 			return nil, err
 		}
 	}
-	key, _ := json.Marshal([]interface{}{in.Dirs, in.HasErr, in.Tail})
+	key, _ := json.Marshal([]interface{}{in.Dirs, in.HasErr, in.Tail, in.Wrap})
 	if s, ok := c20Sites[string(key)]; ok {
 		return s, nil
 	}
@@ -620,6 +662,12 @@ func c20Site(in *c20In) (*c20LiveSite, error) {
 	}
 	if in.HasErr {
 		sb.WriteString("errors " + dir + "/errors.log\n")
+	}
+	switch in.Wrap {
+	case "gzip":
+		sb.WriteString("gzip\n")
+	case "header":
+		sb.WriteString("header / X-C20-Added yes\n")
 	}
 	sb.WriteString("c20probe\n")
 	casket.Quiet = true
@@ -669,6 +717,9 @@ type c20SiteObs struct {
 
 func c20SiteHeaders(in *c20In, id string) map[string]string {
 	h := map[string]string{"X-C20-Id": id}
+	if in.Wrap == "gzip" {
+		h["Accept-Encoding"] = "gzip"
+	}
 	for _, hd := range in.Req.Headers {
 		h[hd.Name] = strings.Join(hd.Values, ",")
 	}
@@ -775,7 +826,7 @@ func c20SiteTerm(in *c20In, addr string, o c20SiteObs) string {
 	for i, l := range o.Lines {
 		tails[i] = l.Tail
 	}
-	return cApp("CSite", cBool(in.HasErr), cBool(in.Head), c20DirsTerm(in.Dirs), cStr(in.Path), c20OpsTerm(in.Ops),
+	return cApp("CSite", cBool(in.Wrap != "gzip"), cBool(in.HasErr), cBool(in.Wrap == "header"), cBool(in.Head), c20DirsTerm(in.Dirs), cStr(in.Path), c20OpsTerm(in.Ops),
 		cZ(int64(in.Ret)), c20Tbl(in.Ret, 500), cZ(int64(o.Status)), cN(uint64(o.Size)), c20LinesTerm(o.Lines),
 		cStr("|"+in.Tail), c20EnvTerm(&q, "127.0.0.1", "", nil), cStrList(tails))
 }
@@ -804,7 +855,7 @@ func c20RunSite(in *c20In) Result {
 		inScope = inScope || c20Matches(in.Path, d.Scope)
 	}
 	res := Result{Term: c20SiteTerm(in, s.addr, o), Obs: o, Sig: sig, Nontrivial: inScope,
-		Class: fmt.Sprintf("%s:errors=%v", sig, in.HasErr)}
+		Class: fmt.Sprintf("%s:errors=%v:wrap=%s", sig, in.HasErr, in.Wrap)}
 	if rr.Err != "" {
 		res.Direct = "no response: " + rr.Err
 	} else if o.Bad != "" {
@@ -857,7 +908,7 @@ func c20RunBurst(in *c20In) Result {
 	sig := "site:clean"
 	direct := ""
 	for i, b := range in.Burst {
-		b.Dirs, b.HasErr, b.Tail = first.Dirs, first.HasErr, first.Tail
+		b.Dirs, b.HasErr, b.Tail, b.Wrap = first.Dirs, first.HasErr, first.Tail, first.Wrap
 		o := c20SiteObs{Status: resps[i].Status, Size: len(resps[i].Body), Err: resps[i].Err, Lines: by[ids[i]]}
 		sort.SliceStable(o.Lines, func(a, c int) bool { return o.Lines[a].ID < o.Lines[c].ID })
 		if resps[i].Err != "" {
@@ -1160,6 +1211,9 @@ func c20GenSite(r *Rand) *c20In {
 	in := &c20In{Kind: "site", Dirs: c20GenDirs(r), HasErr: r.Chance(45), Head: r.Chance(8), Path: r.Pick(c20Paths),
 		Tail: c20Tails[r.Intn(len(c20Tails))], Req: c20GenSiteReq(r)}
 	in.Ops, in.Ret = c20GenOps(r, "site")
+	if r.Chance(20) {
+		in.Wrap = r.Pick([]string{"gzip", "header"})
+	}
 	return in
 }
 
@@ -1235,7 +1289,7 @@ func c20Gen(r *Rand, tier string) []interface{} {
 		b := &c20In{Kind: "burst"}
 		for j := 0; j < burstN; j++ {
 			x := c20GenSite(r)
-			x.Dirs, x.HasErr, x.Tail, x.Head = first.Dirs, first.HasErr, first.Tail, false
+			x.Dirs, x.HasErr, x.Tail, x.Head, x.Wrap = first.Dirs, first.HasErr, first.Tail, false, first.Wrap
 			if i%2 == 0 {
 				// clean bursts: well-behaved handlers only
 				for c20SiteSig(x) != "site:clean" {
